@@ -1,10 +1,10 @@
 use chrono::Duration;
 use nom::branch::alt;
 use nom::bytes::complete::tag;
-use nom::character::complete::char;
+use nom::character::complete::{char, digit1};
 use nom::combinator::{map, opt};
 use nom::multi::many1;
-use nom::number::complete::double;
+use nom::sequence::preceded;
 use nom::IResult;
 
 // Constants representing time units in nanoseconds
@@ -34,11 +34,16 @@ const MICROSECOND: u64 = 1_000;
 pub fn parse_duration(i: &str) -> IResult<&str, Duration> {
     let (i, neg) = opt(parse_negative)(i)?;
     if i == "0" {
-        return Ok((i, Duration::zero()));
+        return Ok(("", Duration::zero()));
     }
-    let (i, duration) = many1(parse_number_unit)(i)
-        .map(|(i, d)| (i, d.iter().fold(Duration::zero(), |acc, next| acc + *next)))?;
-    Ok((i, duration * if neg.is_some() { -1 } else { 1 }))
+    let (i, terms) = many1(parse_number_unit)(i)?;
+    // Sum exactly; the result has to fit signed 64-bit nanoseconds.
+    let nanos = terms.iter().try_fold(0i128, |acc, n| acc.checked_add(*n));
+    let nanos = nanos.map(|n| if neg.is_some() { -n } else { n });
+    match nanos.and_then(|n| i64::try_from(n).ok()) {
+        Some(n) => Ok((i, Duration::nanoseconds(n))),
+        None => Err(too_large(i)),
+    }
 }
 
 enum Unit {
@@ -63,11 +68,31 @@ impl Unit {
     }
 }
 
-fn parse_number_unit(i: &str) -> IResult<&str, Duration> {
-    let (i, num) = double(i)?;
+fn too_large(i: &str) -> nom::Err<nom::error::Error<&str>> {
+    nom::Err::Failure(nom::error::Error::new(i, nom::error::ErrorKind::TooLarge))
+}
+
+/// Parses one `Number Unit` term into nanoseconds. The number is a plain decimal (no sign,
+/// exponent, `inf` or `nan`) and is converted with integer arithmetic, so no precision is
+/// lost; a fraction of a nanosecond is truncated.
+fn parse_number_unit(i: &str) -> IResult<&str, i128> {
+    let (i, int_part) = digit1(i)?;
+    let (i, frac_part) = opt(preceded(char('.'), digit1))(i)?;
     let (i, unit) = parse_unit(i)?;
-    let duration = to_duration(num, unit);
-    Ok((i, duration))
+    let unit = unit.nanos() as i128;
+
+    let whole = int_part
+        .parse::<i128>()
+        .ok()
+        .and_then(|n| n.checked_mul(unit))
+        .ok_or_else(|| too_large(i))?;
+    // Like Go's ParseDuration, ignore fraction digits beyond what fits the arithmetic.
+    let frac_part = frac_part.map(|f| &f[..f.len().min(18)]).unwrap_or("");
+    let frac = match frac_part.parse::<i128>() {
+        Ok(f) => f * unit / 10i128.pow(frac_part.len() as u32),
+        Err(_) => 0,
+    };
+    Ok((i, whole + frac))
 }
 
 fn parse_negative(i: &str) -> IResult<&str, ()> {
@@ -79,15 +104,14 @@ fn parse_unit(i: &str) -> IResult<&str, Unit> {
     alt((
         map(tag("ms"), |_| Unit::Millisecond),
         map(tag("us"), |_| Unit::Microsecond),
+        // U+00B5 (micro sign, what `format_duration` prints) and U+03BC (Greek mu).
+        map(tag("\u{b5}s"), |_| Unit::Microsecond),
+        map(tag("\u{3bc}s"), |_| Unit::Microsecond),
         map(tag("ns"), |_| Unit::Nanosecond),
         map(char('h'), |_| Unit::Hour),
         map(char('m'), |_| Unit::Minute),
         map(char('s'), |_| Unit::Second),
     ))(i)
-}
-
-fn to_duration(num: f64, unit: Unit) -> Duration {
-    Duration::nanoseconds((num * unit.nanos() as f64).trunc() as i64)
 }
 
 /// Formats a [`Duration`] into a string. String returns a string representing the
